@@ -146,16 +146,92 @@ def check_file(ctx, model, nptdms, data, stats, exhaustive, unknown_marker, stri
     return dis, vio
 
 
+def templates(rnd):
+    """Small files of the shapes where truncation handling branches (each found the hard way: defects D9, D12, D17 and the seeded
+    changes): several chunks with a string channel before / after fixed-width channels, wide before narrow types, interleaved rows,
+    a metadata-only last segment, a last segment without metadata, DAQmx objects spread over several raw buffers. Parameters are
+    drawn from the PRNG; every template file is cut at EVERY offset."""
+    import struct as st
+    from gen_files import path_of, STD_TYPES
+    fg = gen_files.FileGen(rnd)
+
+    def seg(objs, chunks, **kw):
+        d = dict(hasMeta=True, newList=True, interleaved=False, big=rnd.random() < 0.3, rawFlag=True, daqmxFlag=False, lengthUnknown=False,
+                 version=4713, padding=0, objs=objs, chunks=chunks)
+        d.update(kw)
+        return d
+
+    def chan(name, ty, n, payload=0):
+        return dict(path=path_of("g", name), idx=("F", ty, n, 4 * n + payload if ty == 0x20 else 0), props=[])
+
+    def values(ob):
+        _, ty, n, total = ob["idx"]
+        if ty == 0x20:
+            return fg._strings(n, total - 4 * n)
+        return [gen_files.rand_value(rnd, ty) for _ in range(n)]
+
+    out = []
+    for _ in range(3):
+        # strings among fixed-width channels, 2-3 chunks, every order
+        objs = [chan("s", 0x20, rnd.randint(1, 2), rnd.randint(1, 5)), chan("i", 3, rnd.randint(1, 3)), chan("b", 1, rnd.randint(1, 3))]
+        rnd.shuffle(objs)
+        objs = objs[:rnd.choice([2, 3])] if any(o["idx"][1] == 0x20 for o in objs[:2]) else objs
+        out.append(("strings+fixed", [seg(objs, [[values(o) for o in objs] for _ in range(rnd.randint(2, 3))])]))
+    for _ in range(3):
+        # wide before narrow and narrow before wide, no strings
+        objs = [chan("q", 4, rnd.randint(1, 2)), chan("b", 5, rnd.randint(1, 3)), chan("h", 2, rnd.randint(1, 2))]
+        rnd.shuffle(objs)
+        out.append(("wide/narrow", [seg(objs, [[values(o) for o in objs] for _ in range(rnd.randint(2, 3))])]))
+    n = rnd.randint(1, 3)
+    objs = [chan("q", 4, n), chan("b", 5, n), chan("f", 9, n)]
+    rnd.shuffle(objs)
+    out.append(("interleaved", [seg(objs, [[values(o) for o in objs] for _ in range(rnd.randint(1, 3))], interleaved=True)]))
+    # data segment followed by a metadata-only segment / by a segment without metadata
+    objs = [chan("i", 3, 2), chan("d", 10, 1)]
+    first = seg(objs, [[values(o) for o in objs] for _ in range(2)], big=False)
+    root = dict(path=path_of(), idx=("N",), props=[gen_files.rand_prop(rnd) for _ in range(2)])
+    out.append(("metadata-only last segment", [first, seg([root], [], big=False, newList=False, rawFlag=rnd.random() < 0.5)]))
+    out.append(("last segment without metadata", [first, seg([], [[values(o) for o in objs] for _ in range(rnd.randint(1, 2))], big=False, hasMeta=False, newList=False)]))
+    # DAQmx: prefer several raw buffers with an object whose scalers live in different buffers
+    best = None
+    for _ in range(40):
+        d = gen_daqmx.draw(rnd)
+        idx = [ob["idx"] for s_ in d for ob in s_["objs"] if ob["idx"][0] == "D"]
+        spread = any(len(set(sc[1] for sc in ix[4])) > 1 for ix in idx)
+        if idx and len(idx[0][5]) > 1 and any(s_["chunks"] for s_ in d):
+            best = d
+            if spread:
+                break
+    if best is not None:
+        out.append(("daqmx multi-buffer", best))
+    return out
+
+
 def run(ctx):
     nptdms = ctx.nptdms()
     model = ctx.get_model() if ctx.build_ok else None
     if model is None:
         return dict(coverage=dict(evaluations=0, distinct_nontrivial=0, rule="model unavailable", samples=[]))
-    stats = dict(files=0, cuts=0, lazy=0, status=0, daqmx=0, unknown_marker=0)
+    stats = dict(files=0, cuts=0, lazy=0, status=0, daqmx=0, unknown_marker=0, templates=0)
     disagreements, violations, samples = [], [], []
     feats = {}
     nontrivial = 0
+    for rounds in range(1 if ctx.tier == "quick" else 12):
+        for label, segs in templates(ctx.rnd):
+            e = model.ask(gen_files.to_line(segs))
+            if not e.get("ok") or not e.get("wf"):
+                ctx.notes.append("template %r is not a well-formed encoding: %s" % (label, str(e)[:80]))
+                continue
+            stats["templates"] += 1
+            feats["template " + label] = feats.get("template " + label, 0) + 1
+            d, v = check_file(ctx, model, nptdms, bytes.fromhex(e["file"]), stats, True, False, False)
+            for x in v:
+                x.what = "[template %s] %s" % (label, x.what)
+            disagreements += d
+            violations += v
     for i in range(ctx.n(200, 2000)):
+        if len(violations) >= 5:
+            break
         daq = i % 6 == 5
         if daq:
             segs = gen_daqmx.draw(ctx.rnd)
@@ -187,7 +263,8 @@ def run(ctx):
             break
     return dict(violations=violations[:5], disagreements=disagreements[:20],
                 coverage=dict(evaluations=stats["cuts"] + stats["lazy"], distinct_nontrivial=nontrivial,
-                              rule="generated files (standard, every sixth DAQmx; up to 4 segments; explicit next-segment offset or the length-unknown marker) cut at every "
+                              rule="template files first (strings among fixed-width channels, wide/narrow types, interleaved, metadata-only last segment, last "
+                                   "segment without metadata, DAQmx over several raw buffers; every offset); then generated files (standard, every sixth DAQmx; up to 4 segments; explicit next-segment offset or the length-unknown marker) cut at every "
                                    "byte offset 4..len for small files / every fifth file / thorough tier, otherwise at all offsets inside raw data (sampled above 120), all "
                                    "lead-in/metadata/segment boundaries +-2 and 60 random offsets; eager and lazy; non-trivial = files holding raw data",
                               samples=samples or [dict(note="see feature_counts")], counts=stats, feature_counts=dict(sorted(feats.items()))))
